@@ -227,6 +227,58 @@ func streamCfg(o opts) {
 	for i := 0; i < o.n; i++ {
 		run(randConfig(r))
 	}
+	// single-fault configurations: an otherwise valid configuration (every policy) with exactly one field out of range
+	for i := 0; i < o.n/2+20; i++ {
+		var c kioshun.Config
+		for tries := 0; tries < 50; tries++ {
+			c = randConfig(r)
+			if c.Validate() == nil {
+				break
+			}
+		}
+		if c.Validate() != nil {
+			continue
+		}
+		c.EvictionPolicy = kioshun.EvictionPolicy(i % 5)
+		if (c.EvictionPolicy == 0 || c.EvictionPolicy == 4) && c.MaxSize == 0 && c.MaxCost > 0 {
+			c.MaxSize = 100
+		}
+		switch (i / 5) % 12 {
+		case 0:
+			c.MaxSize = pick(r, []int64{-1, -100, math.MinInt64})
+		case 1:
+			c.MaxCost = pick(r, []int64{-1, -7, math.MinInt64})
+		case 2:
+			c.ShardCount = pick(r, []int{-1, -64})
+		case 3:
+			c.CleanupInterval = pick(r, []time.Duration{-1, -time.Hour})
+		case 4:
+			c.DefaultTTL = pick(r, []time.Duration{-2, -time.Hour})
+		case 5:
+			c.EvictionPolicy = pick(r, []kioshun.EvictionPolicy{-1, 5, 100})
+		case 6:
+			c.ProbationRatio = pick(r, []uint8{101, 255})
+		case 7:
+			c.GhostRatio = pick(r, []uint8{101, 200})
+		case 8:
+			c.CostAdmission = pick(r, []kioshun.CostAdmission{-1, 3})
+		case 9:
+			c.WriteBufferSize = -1 - r.Intn(5)
+		case 10:
+			c.WriteBatchSize = -1 - r.Intn(5)
+		case 11:
+			// nothing injected: the valid base itself
+		}
+		m.count("single_fault_configs")
+		// oracle by construction: the base is valid, so the configuration is invalid iff a fault was injected
+		injected := (i/5)%12 != 11
+		if err := c.Validate(); (err != nil) != injected {
+			m.violate("C16", fmt.Sprintf("a valid configuration with exactly one field put out of range (fault class %d, 11 = none): Validate() = %v on %s", (i/5)%12, err, cfgString(c)), cfgString(c))
+		} else if err != nil && !errors.Is(err, kioshun.ErrInvalidConfig) {
+			m.violate("C16", fmt.Sprintf("Validate error %v does not wrap ErrInvalidConfig: %s", err, cfgString(c)), cfgString(c))
+		}
+		run(c)
+	}
 	// known finding F9: rounding of a shard count above 2^62 wraps
 	func() {
 		defer func() {
